@@ -8,6 +8,7 @@ from vlib import mirlib as M
 from vlib import synlib as S
 from vlib.mirlib import fn_matches, op_local, op_place, try_edges, origins
 from rules import panics, tables
+from rules import text_rules as X
 
 ASSUMPTIONS = ["justified panic sites in reference/justified_panics.json were judged by reading the code",
                "syn/quote/proc_macro2 themselves do not panic on the token streams the macro builds",
@@ -382,13 +383,13 @@ def run(ctx):
     if ctx.tier == "thorough":
         from vlib import witness
         out.append(witness.rule("C16", ['OptionalNeedsOption', 'OptionalNullableNeedsOption', 'UnknownKeysRejected', 'IncompatibleCombinationsRejected', 'UnsupportedItemRejected', 'UnusualIdentifiersExpand', 'DefaultedGenericsExpand', 'AllSkippedExpands', 'EveryMentionedParameterIsBounded', 'UnusualGenericsExpand', 'PreludeNamesNotCaptured'], "C16.R6"))
-    out.append(T.type_param_walker_rule(ctx.syn, "C16"))
+    out.append(X.type_param_walker_rule(ctx.mir("default")["ts_rs_macros"], "C16"))
     out.append(T.empty_repetition_rule(ctx.syn, "C16"))
     out.append(T.export_test_params_rule(ctx.syn, "C16"))
     out.append(T.where_clause_rule(ctx.syn, "C16"))
     out.append(T.template_hygiene_rule(ctx.syn, "C16"))
     out.append(T.crate_path_rule(ctx.syn, "C16"))
     out.append(T.passthrough_fields_rule(ctx.syn, "C16", rule="C16.R16"))
-    out.append(T.underscore_walker_rule(ctx.syn, "C16", rule="C16.R14"))
+    out.append(X.underscore_walker_rule(ctx.mir("default")["ts_rs_macros"], "C16", rule="C16.R14"))
     out.append(T.generics_rule(ctx.syn, "C16", rule="C16.R12"))
     return out
